@@ -17,7 +17,7 @@ from ..core import Ctx, Violation, explore
 
 ID = "C20"
 LEVEL = "exploration"
-RULE = ("weight vectors are built by construction from families: exact decimal partitions of 10^d (d=1..6), dyadic "
+RULE = ("1..120 stages (monitor sub-check: 1..13); weight vectors are built by construction from families: exact decimal partitions of 10^d (d=1..6), dyadic "
         "partitions k/2^m, thirds, then optionally perturbed (missing / non-numeric / negative / >1 / off-by >1e-3); "
         "given as float, int or numeric string. Non-trivial = >=2 stages with at least one explicitly given weight; "
         "distinct = distinct (weight vector, progress script) values.")
@@ -84,7 +84,7 @@ def _exact(w):
 
 
 @st.composite
-def weight_case(draw, max_n=40, forms=("float",)):
+def weight_case(draw, max_n=120, forms=("float",)):
     n = draw(st.one_of(st.integers(1, 6), st.integers(1, max_n)))
     ws = draw(exact_vector(n))
     for w in ws:
@@ -191,7 +191,7 @@ def check_weights(case, ctx: Ctx):
 # ------------------------------------------------------------------------------------------------------------
 @st.composite
 def monitor_case(draw):
-    c = draw(weight_case(max_n=6, forms=("float", "float", "float", "str", "int")))
+    c = draw(weight_case(max_n=13, forms=("float", "float", "float", "str", "int")))
     n = len(c["weights"])
     cur = draw(st.integers(0, n - 1))
     others = [i for i in range(n) if i != cur]
@@ -317,6 +317,24 @@ def exhaustive_small(ctx: Ctx):
                     ctx.stop = True
                     return
     ctx.rec.count("exhaustive_partitions_enumerated", idx if ctx.shard == 0 else 0)
+    # every stage count up to 160 with no weights given / with equal weights 1/n (the fallback arithmetic depends on n)
+    for n in range(1, 161):
+        if n % ctx.nshards != ctx.shard:
+            continue
+        for case in ({"weights": [{"t": "missing"} for _ in range(n)]},
+                     {"weights": [{"t": "dec", "num": 1, "den": n, "form": "float"} for _ in range(n)]}):
+            ctx.rec.evaluations += 1
+            try:
+                check_weights(case, ctx)
+            except Violation as v:
+                if v.sig in ctx.excluded:
+                    ctx.rec.excluded[v.sig] += 1
+                    continue
+                v.case = case
+                v.sub = "weights"
+                ctx.rec.violations.append(v.to_dict())
+                ctx.stop = True
+                return
 
 
 def shard(ctx: Ctx):
